@@ -1,8 +1,8 @@
 SPECIFICATION Spec
 CONSTANTS
- DrainBug = TRUE
- LinkCode = TRUE
- DupPathBug = TRUE
+ DrainBug = FALSE
+ LinkCode = FALSE
+ DupPathBug = FALSE
  Ids <- LiveIds
 PROPERTY Termination
 CHECK_DEADLOCK TRUE
